@@ -61,6 +61,11 @@ FILTERS = {
                    '</C:text-match></C:prop-filter></C:comp-filter>'),
     "sumMoved": flt('<C:comp-filter name="VEVENT"><C:prop-filter name="SUMMARY"><C:text-match>Alpha moved'
                     '</C:text-match></C:prop-filter></C:comp-filter>'),
+    "hasAtt": flt('<C:comp-filter name="VEVENT"><C:prop-filter name="ATTENDEE"/></C:comp-filter>'),
+    "catTwo": flt('<C:comp-filter name="VEVENT"><C:prop-filter name="CATEGORIES"><C:text-match>two</C:text-match>'
+                  '</C:prop-filter></C:comp-filter>'),
+    "declined": flt('<C:comp-filter name="VEVENT"><C:prop-filter name="ATTENDEE"><C:param-filter name="PARTSTAT">'
+                    '<C:text-match>DECLINED</C:text-match></C:param-filter></C:prop-filter></C:comp-filter>'),
     # presence / absence of properties whose value may be empty or zero
     "hasLoc": flt('<C:comp-filter name="VEVENT"><C:prop-filter name="LOCATION"/></C:comp-filter>'),
     "hasPrio": flt('<C:comp-filter name="VEVENT"><C:prop-filter name="PRIORITY"/></C:comp-filter>'),
@@ -125,6 +130,10 @@ BODIES = {
     "attMix": (lambda U: cal(ev(U, "Alpha", extra=("ATTENDEE;PARTSTAT=ACCEPTED:mailto:a@example.com",)),
                              ev(U, "Alpha two", dtstart="20200122T100000Z", dtend="20200122T110000Z",
                                 extra=("RECURRENCE-ID:20200122T100000Z", "ATTENDEE:mailto:b@example.com"))), "multi"),
+    # a property occurring twice in one component
+    "att2": (lambda U: cal(ev(U, "Alpha", extra=("ATTENDEE;PARTSTAT=ACCEPTED:mailto:a@example.com",
+                                                  "ATTENDEE;PARTSTAT=DECLINED:mailto:b@example.com"))), "repeated"),
+    "cat2": (lambda U: cal(ev(U, "Alpha", extra=("CATEGORIES:one", "CATEGORIES:two,three"))), "repeated"),
     "attN": (lambda U: cal(ev(U, "Alpha", extra=("ATTENDEE:mailto:b@example.com",))), "plain"),
     "tz": (lambda U: cal(TZ_BERLIN, ev(U, "Alpha", dtstart=";TZID=Europe/Berlin:20200201T003000",
                              dtend=";TZID=Europe/Berlin:20200201T013000")), "tzid"),
